@@ -1,0 +1,8 @@
+//go:build !verif
+
+package engine
+
+import "codeberg.org/TauCeti/mangle-go/factstore"
+
+// verifEvent is a no-op unless the library is built with the "verif" tag.
+func verifEvent(string, *engine, factstore.ReadOnlyFactStore) {}
